@@ -120,8 +120,8 @@ def r_ret(prog, R):
         r.viol("process_buf splits on newline", pb.name, pb.loc(pb.ln), "configuration text is no longer split into lines on '\\n'")
 
 
-def r_dst(prog, R, files, rid="R-C15-DST"):
-    r = R.rule(rid, "copies and indexed stores into fixed-size buffers are bounded by the buffer", floor=10, analysis="interval reasoning on dominating guards")
+def r_dst(prog, R, files, rid="R-C15-DST", floor=10):
+    r = R.rule(rid, "copies and indexed stores into fixed-size buffers are bounded by the buffer", floor=floor, analysis="interval reasoning on dominating guards")
     funcs = [f for f in prog.funcs.values() if files is None or f.file in files]
     nun = 0
     for (f, ln, key, ok, msg) in dst_size_findings(prog, funcs) + idx_store_findings(prog, funcs):
